@@ -77,6 +77,7 @@ func c12runHistory(evs []c12ev, np, max, ttl int) c12result {
 	peerOfTid := map[int]int{}
 	addViol := func(sig, what string) { res.violations = append(res.violations, [2]string{sig, what}) }
 	prev := v.Snapshot()
+	var waiting []string
 	for i, e := range evs {
 		p := peerName(e.p)
 		executed := true
@@ -154,36 +155,48 @@ func c12runHistory(evs []c12ev, np, max, ttl int) c12result {
 				addViol(class("start-with-cancelled-context"), fmt.Sprintf("step %d (%v): transfer t%d for %s was started with an already-cancelled context", i, e, s.Tid, s.Peer))
 			}
 		}
-		// FIFO: the peers launched by this event are taken from the head of the queue as it was
+		// FIFO against the harness's own record of the accept order (not the
+		// implementation's queue): a launched receiver must be the earliest waiting one
+		// that is startable.
+		if e.kind == "accept" && prev.Status[p] != "TRANSFERRING" {
+			found := false
+			for _, w := range waiting {
+				if w == p {
+					found = true
+				}
+			}
+			if !found {
+				waiting = append(waiting, p)
+			}
+		}
+		if e.kind == "leave" {
+			waiting = removeStr(waiting, p)
+		}
+		for _, s := range newLaunches {
+			for _, w := range waiting {
+				if w == s.Peer {
+					break
+				}
+				st := prev.Status[w]
+				if st != "" && st != "TRANSFERRING" && inList(snap.Queue, w) {
+					addViol(class("fifo"), fmt.Sprintf("step %d (%v): %s started ahead of %s which accepted earlier", i, e, s.Peer, w))
+					break
+				}
+			}
+			if !inList(waiting, s.Peer) {
+				addViol(class("fifo"), fmt.Sprintf("step %d (%v): %s started although it was not waiting", i, e, s.Peer))
+			}
+			waiting = removeStr(waiting, s.Peer)
+		}
+		// receivers dropped from the queue without being started (no state / cleanup)
 		{
-			pq := prev.Queue
-			if e.kind == "leave" {
-				var f []string
-				for _, x := range pq {
-					if x != p {
-						f = append(f, x)
-					}
+			var keep []string
+			for _, w := range waiting {
+				if inList(snap.Queue, w) {
+					keep = append(keep, w)
 				}
-				pq = f
 			}
-			k := 0
-			for _, s := range newLaunches {
-				for k < len(pq) && pq[k] != s.Peer {
-					// skipping a queued peer is only allowed if it has no state or is already transferring
-					st := prev.Status[pq[k]]
-					if e.kind == "leave" && pq[k] == p {
-						st = ""
-					}
-					if st != "" && st != "TRANSFERRING" {
-						addViol(class("fifo"), fmt.Sprintf("step %d (%v): %s started ahead of %s which accepted earlier", i, e, s.Peer, pq[k]))
-					}
-					k++
-				}
-				if k >= len(pq) {
-					addViol(class("fifo"), fmt.Sprintf("step %d (%v): %s started although it was not waiting", i, e, s.Peer))
-				}
-				k++
-			}
+			waiting = keep
 		}
 		launched = len(snap.Starts)
 		live := 0
@@ -357,3 +370,22 @@ func runC12(cfg config) *hx.Report {
 }
 
 func init() { runners["C12"] = runC12 }
+
+func inList(l []string, x string) bool {
+	for _, y := range l {
+		if y == x {
+			return true
+		}
+	}
+	return false
+}
+
+func removeStr(l []string, x string) []string {
+	var out []string
+	for _, y := range l {
+		if y != x {
+			out = append(out, y)
+		}
+	}
+	return out
+}
